@@ -864,6 +864,14 @@ def main(argv):
             name = c["type"]
             ty = tys.get(name) or shapes[name]
             rep = {"kind": "D", "type": name, "hex": c["hex"], "ndebug": nd}
+            if " res=" not in l and "rc=-14" in l and exe:
+                # the per-case alarm counts wall time: on a loaded machine a case can be descheduled past it.  Run the
+                # case again on its own with a generous alarm before calling it a non-termination
+                pm = 19 if nd == "1" else 31
+                rc2, out2, err2 = sh([exe], input="%s D %s %d %s\n" % (c["id"], name, pm, c["hex"]), timeout=120,
+                                     env=dict(env or os.environ, C11_ALARM="40"))
+                if rc2 == 0 and " res=" in out2:
+                    l = out2.strip().splitlines()[-1]
             if " res=" not in l:
                 if "Sanitizer" in l or "runtime error" in l:
                     chk.violate("trivial-size-smart-pointer-in-container" if trivial_ptr_container(ty) else "hostile-input-memory-error",
